@@ -10,6 +10,8 @@ import (
 	"path/filepath"
 	"sort"
 	"strings"
+	"sync"
+	"syscall"
 	"time"
 
 	"github.com/dave/jennifer/jen"
@@ -113,9 +115,32 @@ var c10Entries = []c10Entry{
 	}},
 }
 
-type injected struct{ call int }
+// injected is the error a faulty writer returns: a value of its own that wraps one of the error
+// identities real writers fail with (so that errors.Is / errors.As see through it).
+type injected struct {
+	call  int
+	under error
+}
 
-func (e *injected) Error() string { return fmt.Sprintf("injected writer fault at call %d", e.call) }
+func (e *injected) Error() string {
+	return fmt.Sprintf("injected writer fault at call %d: %v", e.call, e.under)
+}
+func (e *injected) Unwrap() error { return e.under }
+
+var c10ErrKinds = []struct {
+	name string
+	err  error
+}{
+	{"plain", errors.New("disk on fire")},
+	{"EPIPE", &os.PathError{Op: "write", Path: "|1", Err: syscall.EPIPE}},
+	{"io.ErrClosedPipe", io.ErrClosedPipe},
+	{"io.ErrShortWrite", io.ErrShortWrite},
+	{"io.EOF", io.EOF},
+	{"os.ErrClosed", os.ErrClosed},
+	{"ENOSPC", &os.PathError{Op: "write", Path: "out.go", Err: syscall.ENOSPC}},
+	{"EAGAIN", syscall.EAGAIN},
+	{"EINTR", syscall.EINTR},
+}
 
 // faultWriter answers every Write call as the explorer decides.
 type faultWriter struct {
@@ -130,16 +155,18 @@ func (w *faultWriter) Write(p []byte) (int, error) {
 	w.calls++
 	switch w.c.Choose(3) {
 	case 1:
-		e := &injected{w.calls}
+		k := c10ErrKinds[w.c.ChooseCost(len(c10ErrKinds), 0)]
+		e := &injected{w.calls, k.err}
 		w.faults = append(w.faults, e)
-		w.answers = append(w.answers, "error")
+		w.answers = append(w.answers, "error("+k.name+")")
 		return 0, e
 	case 2:
-		e := &injected{w.calls}
+		k := c10ErrKinds[w.c.ChooseCost(len(c10ErrKinds), 0)]
+		e := &injected{w.calls, k.err}
 		w.faults = append(w.faults, e)
 		n := len(p) / 2
 		w.buf.Write(p[:n])
-		w.answers = append(w.answers, fmt.Sprintf("short(%d of %d)+error", n, len(p)))
+		w.answers = append(w.answers, fmt.Sprintf("short(%d of %d)+error(%s)", n, len(p), k.name))
 		return n, e
 	}
 	w.buf.Write(p)
@@ -249,7 +276,24 @@ var c10Targets = []c10Target{
 		return filepath.Join(d, "plain", "out.go")
 	}, true, "", false},
 	{"name-too-long", func(d string) string { return filepath.Join(d, strings.Repeat("n", 300)+".go") }, true, "", false},
-	{"dev-full", func(d string) string { return "/dev/full" }, true, "", true},
+	// a private "always full" character device (1,7), so that a tree under test that replaces its
+	// target can never damage the system's /dev/full; "" when the node cannot be made here
+	{"dev-full", func(d string) string {
+		p := filepath.Join(d, "full-device")
+		if err := syscall.Mknod(p, syscall.S_IFCHR|0o666, 1<<8|7); err != nil {
+			return ""
+		}
+		if f, err := os.OpenFile(p, os.O_WRONLY, 0); err != nil {
+			return ""
+		} else {
+			_, werr := f.Write([]byte("x"))
+			f.Close()
+			if werr == nil {
+				return "" // not the full device after all
+			}
+		}
+		return p
+	}, true, "", false},
 	{"symlink-to-existing", func(d string) string {
 		os.WriteFile(filepath.Join(d, "real.go"), []byte(c10Old), 0o644)
 		os.Symlink(filepath.Join(d, "real.go"), filepath.Join(d, "out.go"))
@@ -269,6 +313,8 @@ func dirListing(dir string) string {
 	return strings.Join(names, ",")
 }
 
+var c10SkippedTargets sync.Map
+
 func c10Save(ti, gi int, nf bool) string {
 	t, g := c10Trees[ti], c10Targets[gi]
 	if g.outside {
@@ -282,6 +328,10 @@ func c10Save(ti, gi int, nf bool) string {
 	}
 	defer os.RemoveAll(dir)
 	target := g.prepare(dir)
+	if target == "" {
+		c10SkippedTargets.Store(g.name, true)
+		return "" // situation cannot be set up here: nothing to check
+	}
 	listing := dirListing(dir)
 	var before os.FileInfo
 	if g.existing != "" {
@@ -456,9 +506,9 @@ func c10SaveSequence() []string {
 func runC10(r *ev.Recorder) {
 	r.SetDeadline(10 * 60 * 1e9)
 	r.Rule = fmt.Sprintf("writer faults: %d entry points (File.Render with formatting on/off, Statement.Render, Statement.RenderWithFile, Group.Render, Group.RenderWithFile) x %d trees (6 valid, 6 invalid, of different sizes) x EVERY answer sequence of the writer "+
-		"(each Write call answered ok / error / short write + error, explored exhaustively by the choice-point explorer - whatever number of calls the implementation makes). Oracle: invalid tree => error and ZERO writer calls; "+
+		"(each Write call answered ok / error / short write + error, the error wrapping one of 9 identities real writers fail with - a plain error, EPIPE and ENOSPC as *os.PathError, io.ErrClosedPipe, io.ErrShortWrite, io.EOF, os.ErrClosed, EAGAIN, EINTR; explored exhaustively by the choice-point explorer - whatever number of calls the implementation makes). Oracle: invalid tree => error and ZERO writer calls; "+
 		"any injected fault => the returned error Is that fault (never nil); no fault => concatenated writes equal the bytes the same tree renders into a bytes.Buffer. "+
-		"Sequences: every sequence of 2 and 3 fragment renders (Statement / Group RenderWithFile; valid and invalid trees; good and failing writer) that share ONE File: a failed step must leave no trace - every successful step writes what a File that saw only the successful steps writes. Save: %d trees x %d filesystem situations (absent, existing longer/shorter than the output, directory, missing parent, parent is a file, name too long, /dev/full, symlink) x formatting on/off. "+
+		"Sequences: every sequence of 2 and 3 fragment renders (Statement / Group RenderWithFile; valid and invalid trees; good and failing writer) that share ONE File: a failed step must leave no trace - every successful step writes what a File that saw only the successful steps writes. Save: %d trees x %d filesystem situations (absent, existing longer/shorter than the output, directory, missing parent, parent is a file, name too long, a private 'always full' character device, symlink) x formatting on/off. "+
 		"Oracle: failed render => error, existing target byte-identical with unchanged mtime, directory listing unchanged; unwritable target => error and unchanged listing; success => file content exactly the rendered bytes. "+
 		"distinct_nontrivial = distinct executions with at least one injected fault, an invalid tree, or an fs situation other than 'absent'", len(c10Entries), len(c10Trees), len(c10Trees), len(c10Targets))
 	r.Assume = []string{"the sandbox runs as root: permission faults (EACCES) cannot be produced; the other causes are", "an io.Writer that returns n < len(p) also returns an error (its contract)"}
@@ -551,6 +601,13 @@ func runC10(r *ev.Recorder) {
 				}
 			}
 		}
+	}
+	var skipped []string
+	c10SkippedTargets.Range(func(k, _ any) bool { skipped = append(skipped, k.(string)); return true })
+	if len(skipped) > 0 {
+		sort.Strings(skipped)
+		r.Note("save_situations_that_could_not_be_set_up_here", skipped)
+		r.NotExhaustive("some filesystem situations could not be set up (see coverage.save_situations_that_could_not_be_set_up_here)")
 	}
 }
 
